@@ -95,6 +95,7 @@ func (g *gen) pickTree(allowSettings bool) string {
 }
 
 func (g *gen) next() *opSpec {
+	defer g.rn.timed("gen")()
 	if len(g.queue) > 0 {
 		f := g.queue[0]
 		g.queue = g.queue[1:]
@@ -412,7 +413,7 @@ func (g *gen) remoteFrom(fp forkPoint, id string, kind string) *opSpec {
 			return err
 		},
 		after: func() {
-			g.rn.r.Count(fmt.Sprintf("remote.mode.%d", int(mode)))
+			g.rn.r.Count("remote.mode." + map[objecttree.Mode]string{objecttree.Append: "append", objecttree.Rebuild: "rebuild", objecttree.Nothing: "nothing"}[mode])
 			if variant == "full" && snapAt >= 0 {
 				// the peer's snapshot is now stored here as well; count it so that later fork points compare right
 				g.snaps[id]++
